@@ -25,6 +25,10 @@ CorruptOK(ret) == ret # "ok"
 \* ... and every transition of the automaton leads to a slot inside both of its tables (only the used part of a buffer is saved)
 AuditOK(c) == /\ c.unregistered = 0 /\ c.dangling = 0 /\ c.outside = 0
               /\ ("ac_bad" \in DOMAIN c => c.ac_bad = 0)
+\* two images back to back in one stream: loading the first consumes exactly its own bytes, so that the second loads too
+ConsumesExactlyOK(c) == c.ret1 = 0 /\ c.pos1 = c.len1 /\ c.ret2 = 0
+\* a rule set the compiler accepted can be written out, whatever the sizes of its sections (c.n = number of entries that sets the size)
+SaveSizeOK(c) == c.save = 0 /\ c.savestream = 0 /\ c.load = 0
 \* hook H8: when the tables of the automaton are complete, the arena holds at least as many entries of each as their logical
 \* size (what lies beyond the used part of a buffer is neither saved nor protected)
 ACTablesOK(c) == c.t >= c.size /\ c.m >= c.size
